@@ -1,6 +1,7 @@
 package engine
 
 import (
+	"os"
 	"fmt"
 	"go/constant"
 	"go/token"
@@ -297,6 +298,9 @@ func (fr *frame) execInstr(in ssa.Instruction, st *State) {
 		if lk, ok := x.Map.(*ssa.Lookup); ok {
 			// a write into an inner map m[k1][k2] = v is named "m[*]"
 			mname = sourceName(lk.X) + "[*]"
+		}
+		if os.Getenv("GOVC_DEBUG") != "" {
+			fmt.Fprintf(os.Stderr, "[mapupdate] %s in %s\n", mname, ShortName(fr.fn))
 		}
 		fr.atCall("mapupdate:"+mname, st, x.Pos(), nil, []T{fr.val(x.Key), fr.val(x.Value)}, x)
 		c.traceCall("mapupdate:"+mname, st) // calls("mapupdate:<map>") counts the writes
